@@ -583,6 +583,7 @@ def simulate(desc, rng=None):
     s.base_seed = desc.get("seed", 0)
     s.victim = desc.get("victim")
     _SCHED = s
+    gc.collect()  # leftovers of earlier runs in this process are finalised outside the simulation
     run = {"plan": {int(k): v for k, v in desc.get("plan", {}).items()}, "ledger": [], "fired": [], "segments": [],
            "preempt": desc.get("preempt", True), "tag": desc.get("tag", "t"), "seed": desc.get("seed", 0), "draw_ctr": 0, "attaches": 0,
            "delays": {int(k): v for k, v in desc.get("delays", {}).items()}, "takes": {}, "lost_items": [],
@@ -614,6 +615,10 @@ def simulate(desc, rng=None):
         except _Abort:
             out.hang = s.hang or s.abort
         except Exception as e:
+            # drop the traceback here, at a deterministic point inside the run: it holds the
+            # parallel_add frame (and through it every per-worker sketch); left alone it would
+            # form a cycle that some later run's gc.collect() finalises
+            e.__traceback__ = None
             out.exc = e
         s.main.state = "done"
         leftover = [t.name for t in s.tasks if not t.done and not t.is_main]
